@@ -20,7 +20,7 @@
 (*        an unbreakable row (sna2skool's <nowrap>); tabs = tables in order *)
 (*     G (instruction group) [k, ins = <<addr, op>>.., w]                   *)
 (*   out   projected output lines in order                                  *)
-(*     [kind, w, n, wl, cl, fl, op, addr, rs, warn, tab, cols]              *)
+(*     [kind, w, n, wl, cl, fl, op, addr, rs, warn, tab, cols, lf]          *)
 (*     kind "c" comment text, "s" empty comment line, "d" dot line,         *)
 (*          "i" instruction / continuation row, "x" anything else           *)
 (*     n display length, wl length in characters, cl length of the text     *)
@@ -28,7 +28,9 @@
 (*     (op = 0: continuation row), rs rowspan of the html comment cell,     *)
 (*     warn = 1: skool2asm printed a warning quoting this line / table,     *)
 (*     tab = 1: the line stands for a whole rendered table (cols = words of *)
-(*     each column top to bottom; w = the table placeholder code)           *)
+(*     each column top to bottom; w = the table placeholder code),          *)
+(*     lf = 1: the line ended in a bare LF although CRLF is configured      *)
+(*     (counted as drift "TERMINATOR", not a clause of C18)                 *)
 (* Verdict: "ok" or the first failing clause; drift (layout differs from    *)
 (* the greedy reference / the row model without breaking the property) is   *)
 (* reported separately and never fails a case.                              *)
@@ -41,7 +43,22 @@ Wr == INSTANCE Wrap WITH W <- 0, MaxWords <- 0, Lens <- {}, MaxInstr <- 0,
 Cases == JsonDeserialize(IOEnv.CASES)
 VARIABLES tid, verdict
 
-IsSep(l) == l.kind \in {"s", "d"}
+\* an output line is the tuple <<kind, w, n, wl, cl, fl, op, addr, rs, warn, tab, cols, lf>> (see Wrap.tla)
+Lkind(l) == l[1]
+Lw(l) == l[2]
+Ln(l) == l[3]
+Lwl(l) == l[4]
+Lcl(l) == l[5]
+Lfl(l) == l[6]
+Lop(l) == l[7]
+Laddr(l) == l[8]
+Lrs(l) == l[9]
+Lwarn(l) == l[10]
+Ltab(l) == l[11]
+Lcols(l) == l[12]
+Llf(l) == l[13]
+
+IsSep(l) == Lkind(l) \in {"s", "d"}
 SkoolSyntax(c) == c.tool \in {"skool", "gen"}
 
 \* first index >= li that is not a separator line (Len+1 if none)
@@ -49,15 +66,15 @@ SkipSeps(o, li) ==
   LET S == { j \in li..Len(o) : ~IsSep(o[j]) } IN IF S = {} THEN Len(o) + 1 ELSE Wr!MinOf(S)
 \* last index of the maximal run of lines of one kind that starts at p (p-1 if there is none)
 RunEnd(o, p, kind) ==
-  LET S == { j \in p..Len(o) : \A i \in p..j : o[i].kind = kind } IN IF S = {} THEN p - 1 ELSE Wr!MaxOf(S)
+  LET S == { j \in p..Len(o) : \A i \in p..j : Lkind(o[i]) = kind } IN IF S = {} THEN p - 1 ELSE Wr!MaxOf(S)
 \* rows of an instruction group of k instructions starting at p: up to the row before instruction k+1
 GroupEnd(o, p, k) ==
   LET r == RunEnd(o, p, "i")
-      ops == { j \in p..r : o[j].op # 0 }
+      ops == { j \in p..r : Lop(o[j]) # 0 }
   IN IF Cardinality(ops) <= k THEN r
      ELSE (CHOOSE j \in ops : Cardinality({ i \in ops : i < j }) = k) - 1
 LinesOf(o, p, q) == [j \in 1..(q - p + 1) |-> o[p + j - 1]]
-CountSep(o, a, b) == Cardinality({ j \in a..b : o[j].kind = "s" })
+CountSep(o, a, b) == Cardinality({ j \in a..b : Lkind(o[j]) = "s" })
 
 --------------------------------------------------------------------------
 (* paragraph-like blocks *)
@@ -66,20 +83,20 @@ JudgeP(c, it, p, q, nsec) ==
   ELSE
   LET ls == LinesOf(c.out, p, q)
       n == Len(ls)
-      dotCont(j) == it.dotc = 1 /\ Len(ls[j].w) > 0 /\ ls[j].w[1] = c.dot
-      ws == [j \in 1..n |-> IF dotCont(j) THEN Tail(ls[j].w) ELSE ls[j].w]
+      dotCont(j) == it.dotc = 1 /\ Len(Lw(ls[j])) > 0 /\ Lw(ls[j])[1] = c.dot
+      ws == [j \in 1..n |-> IF dotCont(j) THEN Tail(Lw(ls[j])) ELSE Lw(ls[j])]
       firsts == [j \in 1..n |-> 1 + Wr!SumSeq([i \in 1..(j - 1) |-> Len(ws[i])])]
       starts == { it.st[s][1] : s \in 1..Len(it.st) }
       stOf(j) == { s \in 1..Len(it.st) : it.st[s][1] = firsts[j] /\ Len(ws[j]) > 0 }
       fixAt(j) == IF stOf(j) = {} THEN 0 ELSE it.st[CHOOSE s \in stOf(j) : TRUE][2]
       nbAt(j) == stOf(j) # {} /\ it.st[CHOOSE s \in stOf(j) : TRUE][3] = 1
       units(j) == Len(ws[j]) - fixAt(j)
-      tabLines == SelectSeq(ls, LAMBDA l : l.tab = 1)
-      excused(j) == units(j) <= 1 \/ ls[j].tab = 1 \/ nbAt(j)
-      tabNo(j) == Cardinality({ i \in 1..j : ls[i].tab = 1 })
+      tabLines == SelectSeq(ls, LAMBDA l : Ltab(l) = 1)
+      excused(j) == units(j) <= 1 \/ Ltab(ls[j]) = 1 \/ nbAt(j)
+      tabNo(j) == Cardinality({ i \in 1..j : Ltab(ls[i]) = 1 })
       drift == Cardinality({ j \in 1..(n - 1) :
-                  /\ c.W > 0 /\ ls[j].tab = 0 /\ ls[j + 1].tab = 0 /\ stOf(j + 1) = {} /\ ~nbAt(j)
-                  /\ Wr!BrokeEarly(ls[j].cl, ls[j + 1].fl, ls[j].cl + c.W - ls[j].n) })
+                  /\ c.W > 0 /\ Ltab(ls[j]) = 0 /\ Ltab(ls[j + 1]) = 0 /\ stOf(j + 1) = {} /\ ~nbAt(j)
+                  /\ Wr!BrokeEarly(Lcl(ls[j]), Lfl(ls[j + 1]), Lcl(ls[j]) + c.W - Ln(ls[j])) })
   IN
   IF Wr!Flatten(ws) # it.w THEN <<"words", 0>>
   ELSE IF c.tool = "skool" /\ it.sec <= 4 /\ nsec + 1 # it.sec THEN <<"section", 0>>
@@ -87,44 +104,49 @@ JudgeP(c, it, p, q, nsec) ==
   ELSE IF \E s \in starts : ~\E j \in 1..n : firsts[j] = s /\ Len(ws[j]) > 0 /\ ~dotCont(j) THEN <<"line-start", 0>>
   ELSE IF it.dotc = 1 /\ \E j \in 1..n : ~dotCont(j) /\ firsts[j] \notin starts THEN <<"reg-continuation", 0>>
   ELSE IF Len(tabLines) # Len(it.tabs) THEN <<"table-count", 0>>
-  ELSE IF \E i \in 1..Len(it.tabs) : tabLines[i].cols # it.tabs[i].cols THEN <<"table-cells", 0>>
-  ELSE IF \E j \in 1..n : ~Wr!LineOK(ls[j].n, c.W, units(j), excused(j)) THEN <<"width", 0>>
-  ELSE IF c.W > 0 /\ \E j \in 1..n : ls[j].tab = 1 /\ ls[j].n > c.W /\ it.tabs[tabNo(j)].minw > 0
-                                    /\ it.tabs[tabNo(j)].minw + (ls[j].n - ls[j].cl) <= c.W THEN <<"table-width", 0>>
-  ELSE IF c.tool = "asm" /\ \E j \in 1..n : ls[j].wl > c.W /\ ls[j].tab = 1 /\ ls[j].warn = 0 THEN <<"warn-table", 0>>
-  ELSE IF c.tool = "asm" /\ \E j \in 1..n : ls[j].wl > c.W /\ ls[j].tab = 0 /\ ls[j].warn = 0 THEN <<"warn-comment", 0>>
+  ELSE IF \E i \in 1..Len(it.tabs) : Lcols(tabLines[i]) # it.tabs[i].cols THEN <<"table-cells", 0>>
+  ELSE IF \E j \in 1..n : ~Wr!LineOK(Ln(ls[j]), c.W, units(j), excused(j)) THEN <<"width", 0>>
+  ELSE IF c.W > 0 /\ \E j \in 1..n : Ltab(ls[j]) = 1 /\ Ln(ls[j]) > c.W /\ it.tabs[tabNo(j)].minw > 0
+                                    /\ it.tabs[tabNo(j)].minw + (Ln(ls[j]) - Lcl(ls[j])) <= c.W THEN <<"table-width", 0>>
+  ELSE IF c.tool = "asm" /\ \E j \in 1..n : Lwl(ls[j]) > c.W /\ Ltab(ls[j]) = 1 /\ Lwarn(ls[j]) = 0 THEN <<"warn-table", 0>>
+  ELSE IF c.tool = "asm" /\ \E j \in 1..n : Lwl(ls[j]) > c.W /\ Ltab(ls[j]) = 0 /\ Lwarn(ls[j]) = 0 THEN <<"warn-comment", 0>>
   ELSE <<"ok", drift>>
 
 --------------------------------------------------------------------------
 (* instruction groups *)
 JudgeG(c, it, p, q) ==
-  IF p > Len(c.out) \/ c.out[p].kind # "i" THEN <<"instr-missing", 0>>
+  IF p > Len(c.out) \/ Lkind(c.out[p]) # "i" THEN <<"instr-missing", 0>>
   ELSE
   LET rs == LinesOf(c.out, p, q)
       n == Len(rs)
-      insIdx == SelectSeq(Wr!Iota(n), LAMBDA j : rs[j].op # 0)
-      toks == Wr!Flatten([j \in 1..n |-> rs[j].w])
+      insIdx == SelectSeq(Wr!Iota(n), LAMBDA j : Lop(rs[j]) # 0)
+      toks == Wr!Flatten([j \in 1..n |-> Lw(rs[j])])
       words == IF SkoolSyntax(c) THEN Wr!Rendered(toks) ELSE toks
-      nlines == Cardinality({ j \in 1..n : Len(rs[j].w) > 0 })
-      overOK(j) == Wr!LineOK(rs[j].n, c.W, Len(rs[j].w), rs[j].cl <= c.cwmin)
+      nlines == Cardinality({ j \in 1..n : Len(Lw(rs[j])) > 0 })
+      overOK(j) == Wr!LineOK(Ln(rs[j]), c.W, Len(Lw(rs[j])), Lcl(rs[j]) <= c.cwmin)
       \* drift: comment lines not packed from the first row down / continuation rows before the last
       \* instruction / a break although the next word would have fitted
-      unpacked == Cardinality({ j \in 1..(n - 1) : Len(rs[j].w) = 0 /\ Len(rs[j + 1].w) > 0 })
-      early == Cardinality({ j \in 1..(n - 1) : rs[j].op = 0 /\ rs[j + 1].op # 0 })
+      \* a last row that holds nothing but the closing braces of the group (codes 1..9) is placed by the
+      \* instruction it closes, not by the wrapping
+      closingOnly(j) == SkoolSyntax(c) /\ j = n /\ Wr!Braced(toks) /\ Len(Lw(rs[j])) > 0
+                        /\ \A i \in 1..Len(Lw(rs[j])) : Lw(rs[j])[i] \in 1..9
+      hasText(j) == Len(Lw(rs[j])) > 0 /\ ~closingOnly(j)
+      unpacked == Cardinality({ j \in 1..(n - 1) : ~hasText(j) /\ hasText(j + 1) })
+      early == Cardinality({ j \in 1..(n - 1) : Lop(rs[j]) = 0 /\ Lop(rs[j + 1]) # 0 })
       broke == Cardinality({ j \in 1..(n - 1) :
-                  /\ c.W > 0
-                  /\ \/ Wr!BrokeEarly(rs[j].cl, rs[j + 1].fl, rs[j].cl + c.W - rs[j].n)
-                     \/ Wr!BrokeEarly(rs[j].cl, rs[j + 1].fl, c.cwmin) })
+                  /\ c.W > 0 /\ ~closingOnly(j + 1)
+                  /\ \/ Wr!BrokeEarly(Lcl(rs[j]), Lfl(rs[j + 1]), Lcl(rs[j]) + c.W - Ln(rs[j]))
+                     \/ Wr!BrokeEarly(Lcl(rs[j]), Lfl(rs[j + 1]), c.cwmin) })
   IN
   IF Len(insIdx) # it.k THEN <<"instr-count", 0>>
-  ELSE IF \E j \in 1..it.k : rs[insIdx[j]].op # it.ins[j][2] THEN <<"instr-operation", 0>>
-  ELSE IF c.tool # "asm" /\ \E j \in 1..it.k : rs[insIdx[j]].addr # it.ins[j][1] THEN <<"instr-address", 0>>
+  ELSE IF \E j \in 1..it.k : Lop(rs[insIdx[j]]) # it.ins[j][2] THEN <<"instr-operation", 0>>
+  ELSE IF c.tool # "asm" /\ \E j \in 1..it.k : Laddr(rs[insIdx[j]]) # it.ins[j][1] THEN <<"instr-address", 0>>
   ELSE IF SkoolSyntax(c) /\ Wr!BraceExtent(c.out, p) # q THEN <<"group-extent", 0>>
   ELSE IF words # it.w THEN <<"group-words", 0>>
-  ELSE IF c.tool = "html" /\ (rs[1].rs # it.k \/ \E j \in 2..n : rs[j].rs # 0 \/ Len(rs[j].w) > 0) THEN <<"rowspan", 0>>
+  ELSE IF c.tool = "html" /\ (Lrs(rs[1]) # it.k \/ \E j \in 2..n : Lrs(rs[j]) # 0 \/ Len(Lw(rs[j])) > 0) THEN <<"rowspan", 0>>
   ELSE IF \E j \in 1..n : ~overOK(j) THEN <<"width-row", 0>>
-  ELSE IF c.tool = "asm" /\ \E j \in 1..n : rs[j].wl > c.W /\ rs[j].warn = 0 THEN <<"warn-row", 0>>
-  ELSE <<"ok", unpacked + early + broke>>
+  ELSE IF c.tool = "asm" /\ \E j \in 1..n : Lwl(rs[j]) > c.W /\ Lwarn(rs[j]) = 0 THEN <<"warn-row", 0>>
+  ELSE <<"ok", IF c.tool = "gen" THEN 0 ELSE unpacked + early + broke>>
 
 --------------------------------------------------------------------------
 RECURSIVE Walk(_, _, _, _, _)
@@ -139,15 +161,19 @@ Walk(c, ei, li, nsec, drift) ==
            q == RunEnd(c.out, p, "c")
            r == JudgeP(c, it, p, q, ns2)
        IN IF r[1] # "ok" THEN <<r[1] \o "@" \o ToString(ei), 0>> ELSE Walk(c, ei + 1, q + 1, ns2, drift + r[2])
-  ELSE LET q == GroupEnd(c.out, li, it.k)
-           r == JudgeG(c, it, li, q)
+  ELSE LET p == SkipSeps(c.out, li)
+           q == GroupEnd(c.out, p, it.k)
+           r == JudgeG(c, it, p, q)
        IN IF r[1] # "ok" THEN <<r[1] \o "@" \o ToString(ei), 0>> ELSE Walk(c, ei + 1, q + 1, nsec, drift + r[2])
 
 Judge(c) == IF c.exc # "" THEN <<"exception", 0>> ELSE Walk(c, 1, 1, 0, 0)
 
 Init == tid \in 1..Len(Cases) /\ verdict = "pending"
+\* not part of C18 (lead's triage): lines that end in a bare LF although CRLF is configured are only counted
+BareLf(c) == Cardinality({ j \in 1..Len(c.out) : Llf(c.out[j]) = 1 })
 Say(r) == /\ IF r[1] = "ok" THEN TRUE ELSE PrintT(<<"FAIL", tid, r[1]>>)
           /\ IF r[2] = 0 THEN TRUE ELSE PrintT(<<"DRIFT", tid, r[2]>>)
+          /\ IF BareLf(Cases[tid]) = 0 THEN TRUE ELSE PrintT(<<"TERMINATOR", tid, BareLf(Cases[tid])>>)
 Next == /\ verdict = "pending"
         /\ LET r == Judge(Cases[tid]) IN verdict' = r[1] /\ Say(r)
         /\ UNCHANGED tid
